@@ -1,0 +1,45 @@
+//go:build verif
+
+package influxql
+
+// Specification functions for the contracts in verif_contracts.go.
+// They are written from the property statements, are never called by
+// production code and exist only under the build tag "verif".
+
+// spec_prec: the five binding levels of the expression grammar.
+//   * / % &                      5 (tightest)
+//   + - | ^                      4
+//   = != <> < <= > >= =~ !~      3
+//   AND                          2
+//   OR                           1
+// every other token is not a binary operator: 0.
+func spec_prec(t Token) int {
+	if t == MUL || t == DIV || t == MOD || t == BITWISE_AND {
+		return 5
+	}
+	if t == ADD || t == SUB || t == BITWISE_OR || t == BITWISE_XOR {
+		return 4
+	}
+	if t == EQ || t == NEQ || t == LT || t == LTE || t == GT || t == GTE || t == EQREGEX || t == NEQREGEX {
+		return 3
+	}
+	if t == AND {
+		return 2
+	}
+	if t == OR {
+		return 1
+	}
+	return 0
+}
+
+// spec_isOp: the 18 binary operators.
+func spec_isOp(t Token) bool {
+	return t == ADD || t == SUB || t == MUL || t == DIV || t == MOD ||
+		t == BITWISE_AND || t == BITWISE_OR || t == BITWISE_XOR ||
+		t == AND || t == OR ||
+		t == EQ || t == NEQ || t == EQREGEX || t == NEQREGEX ||
+		t == LT || t == LTE || t == GT || t == GTE
+}
+
+// spec_isRegexOp: operators whose right operand is a regular expression.
+func spec_isRegexOp(t Token) bool { return t == EQREGEX || t == NEQREGEX }
